@@ -2395,3 +2395,152 @@ theorem guard_complete (A C : Csc K) (hd1 : A.cols = C.rows) (hd2 : A.rows = C.c
   · right; exact hAinc j hj' k hk hlt
   · left; exact hlt
 end Piqp.Csc
+
+/-! ## Storage level: the symmetric permutation's structure and slot map depend on the pattern only -/
+
+namespace Piqp.Csc
+variable {K : Type}
+
+theorem foldl_proj {σ τ α : Type} (f : σ → α → σ) (g : τ → α → τ) (π : σ → τ) (h : ∀ s a, π (f s a) = g (π s) a) :
+    ∀ (l : List α) (s : σ), π (l.foldl f s) = l.foldl g (π s)
+  | [], _ => rfl
+  | a :: l, s => by rw [List.foldl_cons, List.foldl_cons, foldl_proj f g π h l, h]
+
+/-- the first bucket pass of `permuteSym` without its value array -/
+def pass1Pattern (A : Csc K) (pinv : Array Nat) (n tot : Nat) (w : Array Nat) : Array Nat × Array Nat × Array Nat :=
+  (List.range n).foldl (fun (st : Array Nat × Array Nat × Array Nat) j =>
+    let j2 := pinv.getD j 0
+    ((A.colRange j).filter fun k => A.inner.getD k 0 ≤ j).foldl (fun st k =>
+      let i2 := pinv.getD (A.inner.getD k 0) 0
+      let col := if i2 < j2 then i2 else j2
+      let q := st.1.getD col 0
+      (st.1.modify col (· + 1), st.2.1.setIfInBounds q (if i2 > j2 then i2 else j2), st.2.2.setIfInBounds q k)) st)
+    (w, Array.replicate tot 0, Array.replicate tot 0)
+
+theorem pass1_proj [Zero K] (A : Csc K) (pinv : Array Nat) (n tot : Nat) (w : Array Nat) :
+    (fun (st : Array Nat × Array Nat × Array K × Array Nat) => (st.1, st.2.1, st.2.2.2))
+      ((List.range n).foldl (fun (st : Array Nat × Array Nat × Array K × Array Nat) j =>
+        let j2 := pinv.getD j 0
+        ((A.colRange j).filter fun k => A.inner.getD k 0 ≤ j).foldl (fun st k =>
+          let (w, inn, vl, back) := st
+          let i2 := pinv.getD (A.inner.getD k 0) 0
+          let col := if i2 < j2 then i2 else j2
+          let q := w.getD col 0
+          (w.modify col (· + 1), inn.setIfInBounds q (if i2 > j2 then i2 else j2), vl.setIfInBounds q (A.vals.getD k 0), back.setIfInBounds q k)) st)
+        (w, Array.replicate tot 0, Array.replicate tot 0, Array.replicate tot 0)) = pass1Pattern A pinv n tot w := by
+  unfold pass1Pattern
+  refine foldl_proj _ _ (fun (st : Array Nat × Array Nat × Array K × Array Nat) => (st.1, st.2.1, st.2.2.2)) (fun st j => ?_) _ _
+  exact foldl_proj _ _ (fun (st : Array Nat × Array Nat × Array K × Array Nat) => (st.1, st.2.1, st.2.2.2)) (fun st k => rfl) _ _
+
+/-- the first counting pass (pattern only) -/
+def permCount (A : Csc K) (pinv : Array Nat) : Array Nat :=
+  (List.range A.rows).foldl (fun (w : Array Nat) j =>
+    let j2 := pinv.getD j 0
+    ((A.colRange j).filter fun k => A.inner.getD k 0 ≤ j).foldl (fun w k => let i2 := pinv.getD (A.inner.getD k 0) 0; w.modify (if i2 < j2 then i2 else j2) (· + 1)) w) (Array.replicate A.rows 0)
+
+def permCtOuter (A : Csc K) (pinv : Array Nat) : Array Nat :=
+  (List.range A.rows).foldl (fun (o : Array Nat) i => o.push (o.getD i 0 + (permCount A pinv).getD i 0)) #[0]
+
+/-- the second bucket pass without its value array -/
+def pass2Pattern (n tot : Nat) (ctOuter ctInner ctBack w2 : Array Nat) (nnzA : Nat) : Array Nat × Array Nat × Array Nat :=
+  (List.range n).foldl (fun (st : Array Nat × Array Nat × Array Nat) j =>
+    (List.range' (ctOuter.getD j 0) (ctOuter.getD (j + 1) 0 - ctOuter.getD j 0)).foldl (fun st k =>
+      let i := ctInner.getD k 0
+      let q := st.1.getD i 0
+      (st.1.modify i (· + 1), st.2.1.setIfInBounds q j, st.2.2.setIfInBounds (ctBack.getD k 0) q)) st)
+    (w2, Array.replicate tot 0, Array.replicate nnzA 0)
+
+theorem pass2_proj [Zero K] (n tot : Nat) (ctOuter ctInner ctBack w2 : Array Nat) (ctVals : Array K) (nnzA : Nat) :
+    (fun (st : Array Nat × Array Nat × Array K × Array Nat) => (st.1, st.2.1, st.2.2.2))
+      ((List.range n).foldl (fun (st : Array Nat × Array Nat × Array K × Array Nat) j =>
+        (List.range' (ctOuter.getD j 0) (ctOuter.getD (j + 1) 0 - ctOuter.getD j 0)).foldl (fun st k =>
+          let (w, inn, vl, map) := st
+          let i := ctInner.getD k 0
+          let q := w.getD i 0
+          (w.modify i (· + 1), inn.setIfInBounds q j, vl.setIfInBounds q (ctVals.getD k 0), map.setIfInBounds (ctBack.getD k 0) q)) st)
+        (w2, Array.replicate tot 0, Array.replicate tot 0, Array.replicate nnzA 0)) =
+      pass2Pattern n tot ctOuter ctInner ctBack w2 nnzA := by
+  unfold pass2Pattern
+  refine foldl_proj _ _ (fun (st : Array Nat × Array Nat × Array K × Array Nat) => (st.1, st.2.1, st.2.2.2)) (fun st j => ?_) _ _
+  exact foldl_proj _ _ (fun (st : Array Nat × Array Nat × Array K × Array Nat) => (st.1, st.2.1, st.2.2.2)) (fun st k => rfl) _ _
+
+/-- column starts, row indices and slot map of `permute_sparse_symmetric_matrix`, computed from the pattern of `A` alone -/
+def permPattern (A : Csc K) (pinv : Array Nat) : Array Nat × Array Nat × Array Nat :=
+  let n := A.rows
+  let ctOuter := permCtOuter A pinv
+  let tot := ctOuter.getD n 0
+  let p1 := pass1Pattern A pinv n tot (ctOuter.extract 0 n)
+  let cnt := (List.range tot).foldl (fun (c : Array Nat) k => c.modify (p1.2.1.getD k 0) (· + 1)) (Array.replicate n 0)
+  let cOuter := (List.range n).foldl (fun (o : Array Nat) j => o.push (o.getD j 0 + cnt.getD j 0)) #[0]
+  let p2 := pass2Pattern n tot ctOuter p1.2.1 p1.2.2 (cOuter.extract 0 n) (A.outer.getD A.cols 0)
+  (cOuter, p2.2.1, p2.2.2)
+
+def pass1Full [Zero K] (A : Csc K) (pinv : Array Nat) (n tot : Nat) (w : Array Nat) : Array Nat × Array Nat × Array K × Array Nat :=
+  (List.range n).foldl (fun (st : Array Nat × Array Nat × Array K × Array Nat) j =>
+    let j2 := pinv.getD j 0
+    ((A.colRange j).filter fun k => A.inner.getD k 0 ≤ j).foldl (fun st k =>
+      let (w, inn, vl, back) := st
+      let i2 := pinv.getD (A.inner.getD k 0) 0
+      let col := if i2 < j2 then i2 else j2
+      let q := w.getD col 0
+      (w.modify col (· + 1), inn.setIfInBounds q (if i2 > j2 then i2 else j2), vl.setIfInBounds q (A.vals.getD k 0), back.setIfInBounds q k)) st)
+    (w, Array.replicate tot 0, Array.replicate tot 0, Array.replicate tot 0)
+
+def pass2Full [Zero K] (n tot : Nat) (ctOuter ctInner ctBack w2 : Array Nat) (ctVals : Array K) (nnzA : Nat) : Array Nat × Array Nat × Array K × Array Nat :=
+  (List.range n).foldl (fun (st : Array Nat × Array Nat × Array K × Array Nat) j =>
+    (List.range' (ctOuter.getD j 0) (ctOuter.getD (j + 1) 0 - ctOuter.getD j 0)).foldl (fun st k =>
+      let (w, inn, vl, map) := st
+      let i := ctInner.getD k 0
+      let q := w.getD i 0
+      (w.modify i (· + 1), inn.setIfInBounds q j, vl.setIfInBounds q (ctVals.getD k 0), map.setIfInBounds (ctBack.getD k 0) q)) st)
+    (w2, Array.replicate tot 0, Array.replicate tot 0, Array.replicate nnzA 0)
+
+/-- `permuteSym` with its two bucket passes named -/
+def permuteSymStaged [Zero K] (A : Csc K) (pinv : Array Nat) : Csc K × Array Nat :=
+  let n := A.rows
+  let ctOuter := permCtOuter A pinv
+  let tot := ctOuter.getD n 0
+  let st := pass1Full A pinv n tot (ctOuter.extract 0 n)
+  let cnt := (List.range tot).foldl (fun (c : Array Nat) k => c.modify (st.2.1.getD k 0) (· + 1)) (Array.replicate n 0)
+  let cOuter := (List.range n).foldl (fun (o : Array Nat) j => o.push (o.getD j 0 + cnt.getD j 0)) #[0]
+  let st2 := pass2Full n tot ctOuter st.2.1 st.2.2.2 (cOuter.extract 0 n) st.2.2.1 (A.outer.getD A.cols 0)
+  ({ rows := n, cols := n, outer := cOuter, inner := st2.2.1, vals := st2.2.2.1 }, st2.2.2.2)
+
+theorem permuteSym_staged [Zero K] (A : Csc K) (pinv : Array Nat) : permuteSym A pinv = permuteSymStaged A pinv := rfl
+
+/-- **the structure of `C = A(p,p)` and the slot map depend on the pattern of `A` only**: `permute_sparse_symmetric_matrix` may be run
+    once at `setup()` and its map reused for every later value update with the same pattern -/
+theorem permuteSym_pattern [Zero K] (A : Csc K) (pinv : Array Nat) :
+    ((permuteSym A pinv).1.outer, (permuteSym A pinv).1.inner, (permuteSym A pinv).2) = permPattern A pinv := by
+  rw [permuteSym_staged]
+  unfold permuteSymStaged permPattern
+  simp only
+  have h1 : (fun (st : Array Nat × Array Nat × Array K × Array Nat) => (st.1, st.2.1, st.2.2.2))
+      (pass1Full A pinv A.rows ((permCtOuter A pinv).getD A.rows 0) ((permCtOuter A pinv).extract 0 A.rows)) =
+      pass1Pattern A pinv A.rows ((permCtOuter A pinv).getD A.rows 0) ((permCtOuter A pinv).extract 0 A.rows) := pass1_proj A pinv _ _ _
+  simp only at h1
+  generalize pass1Full A pinv A.rows ((permCtOuter A pinv).getD A.rows 0) ((permCtOuter A pinv).extract 0 A.rows) = st at h1 ⊢
+  generalize pass1Pattern A pinv A.rows ((permCtOuter A pinv).getD A.rows 0) ((permCtOuter A pinv).extract 0 A.rows) = p1 at h1 ⊢
+  have e1 : st.2.1 = p1.2.1 := by rw [← h1]
+  have e2 : st.2.2.2 = p1.2.2 := by rw [← h1]
+  rw [e1, e2]
+  generalize ((List.range A.rows).foldl (fun (o : Array Nat) j => o.push (o.getD j 0 +
+      ((List.range ((permCtOuter A pinv).getD A.rows 0)).foldl (fun (c : Array Nat) k => c.modify (p1.2.1.getD k 0) (· + 1)) (Array.replicate A.rows 0)).getD j 0)) #[0]) = cOuter
+  have h2 : (fun (st : Array Nat × Array Nat × Array K × Array Nat) => (st.1, st.2.1, st.2.2.2))
+      (pass2Full A.rows ((permCtOuter A pinv).getD A.rows 0) (permCtOuter A pinv) p1.2.1 p1.2.2 (cOuter.extract 0 A.rows) st.2.2.1 (A.outer.getD A.cols 0)) =
+      pass2Pattern A.rows ((permCtOuter A pinv).getD A.rows 0) (permCtOuter A pinv) p1.2.1 p1.2.2 (cOuter.extract 0 A.rows) (A.outer.getD A.cols 0) :=
+    pass2_proj _ _ _ _ _ _ _ _
+  simp only at h2
+  rw [← h2]
+
+/-- in particular a matrix with the same pattern and other values gets the same structure and the same slot map -/
+theorem permuteSym_values_irrelevant [Zero K] (A : Csc K) (pinv : Array Nat) (v' : Array K) :
+    (permuteSym { A with vals := v' } pinv).1.outer = (permuteSym A pinv).1.outer ∧
+    (permuteSym { A with vals := v' } pinv).1.inner = (permuteSym A pinv).1.inner ∧
+    (permuteSym { A with vals := v' } pinv).2 = (permuteSym A pinv).2 := by
+  have a := permuteSym_pattern A pinv
+  have b := permuteSym_pattern { A with vals := v' } pinv
+  have e : permPattern { A with vals := v' } pinv = permPattern A pinv := rfl
+  rw [e, ← a] at b
+  exact ⟨congrArg (·.1) b, congrArg (·.2.1) b, congrArg (·.2.2) b⟩
+end Piqp.Csc
